@@ -101,6 +101,16 @@ class NeverTrueInjector(Injector):
         return False
 
 
+class _Poller:
+    """Owns the callback as a bound method; typically referenced by nothing but that bound method."""
+
+    def __init__(self, inj):
+        self.inj = inj
+
+    def poll(self):
+        return self.inj()
+
+
 class AnyArgsInjector(Injector):
     """A generic hook object that tolerates whatever arguments it is called with (Mock-like)."""
 
@@ -169,7 +179,7 @@ class Runner:
         at = list(plan["at"])
         via = plan.get("via", "instance")
         holder = {}
-        if via != "instance":
+        if via not in ("instance", "temporary-bound-method"):
             # the callback is supplied through a subclass (as an attribute or as a method), not set on the instance
             base = type(cube)
             if via == "subclass-attribute":
@@ -183,6 +193,8 @@ class Runner:
             cube.parallel = False
             if via == "instance":
                 cube.check_interrupt = inj
+            elif via == "temporary-bound-method":
+                cube.check_interrupt = _Poller(inj).poll  # nothing else refers to the _Poller instance
             else:
                 holder["inj"] = inj
             out = exc = None
@@ -208,9 +220,10 @@ class Runner:
                     self.count("probe_interrupt_middle_subcube")
         else:
             inj = INJECTORS[plan.get("injector", "plain")](at_items=at, exc_cls=exc_cls)
-            if via != "instance":
+            if via not in ("instance", "temporary-bound-method"):
                 holder["inj"] = inj
-            res = self.pooled(plan, "", cube, aggs, inj if via == "instance" else None)
+            cb = inj if via == "instance" else (_Poller(inj).poll if via == "temporary-bound-method" else None)
+            res = self.pooled(plan, "", cube, aggs, cb)
             self.judge_pooled(inj, at, res)
             self.count("pooled_runs")
             self.count("raises_planned_pooled", len(at))
@@ -225,7 +238,7 @@ class Runner:
         if not at:
             return
         # recovery on the same objects, faults over
-        if via == "instance":
+        if via in ("instance", "temporary-bound-method"):
             cube.check_interrupt = None
         else:
             holder["inj"] = lambda: None
@@ -394,7 +407,7 @@ def plans_for(w, rng, tier, est_steps):
     for p in plans:
         p.setdefault("poolsize", rng.choice((1, 2, 3, 4, 8)))
         p["injector"] = rng.choice(("plain", "plain", "budget", "falsy", "anyargs", "counting", "unhashable"))
-        p["via"] = rng.choice(("instance", "instance", "instance", "subclass-attribute", "subclass-method"))
+        p["via"] = rng.choice(("instance", "instance", "instance", "subclass-attribute", "subclass-method", "temporary-bound-method"))
         if p["via"] != "instance":
             p["injector"] = "plain"
         for prefix in ("", "rec_"):
